@@ -106,7 +106,7 @@ func init() {
 			stale = true
 		}
 		expCount := int64(0)
-		if exprShape(c04Value(df, "ExponentialCalculationsCount")) == "int(math.Log(MaxExponentialBackoffDelay.Seconds())/math.Log(ExponentialDelayFactor))" && factor >= 2 {
+		if c04ExprShape(c04Value(df, "ExponentialCalculationsCount")) == "int(math.Log(MaxExponentialBackoffDelay.Seconds())/math.Log(ExponentialDelayFactor))" && factor >= 2 {
 			expCount = int64(int(math.Log(float64(maxNs)/1e9) / math.Log(float64(factor))))
 		} else {
 			stale = true
@@ -129,29 +129,29 @@ func init() {
 }
 
 // exprShape prints an expression with full selector/call structure (for shape checks).
-func exprShape(e ast.Expr) string {
+func c04ExprShape(e ast.Expr) string {
 	switch x := e.(type) {
 	case nil:
 		return ""
 	case *ast.Ident:
 		return x.Name
 	case *ast.SelectorExpr:
-		return exprShape(x.X) + "." + x.Sel.Name
+		return c04ExprShape(x.X) + "." + x.Sel.Name
 	case *ast.BasicLit:
 		return x.Value
 	case *ast.CallExpr:
-		s := exprShape(x.Fun) + "("
+		s := c04ExprShape(x.Fun) + "("
 		for i, a := range x.Args {
 			if i > 0 {
 				s += ","
 			}
-			s += exprShape(a)
+			s += c04ExprShape(a)
 		}
 		return s + ")"
 	case *ast.BinaryExpr:
-		return exprShape(x.X) + x.Op.String() + exprShape(x.Y)
+		return c04ExprShape(x.X) + x.Op.String() + c04ExprShape(x.Y)
 	case *ast.ParenExpr:
-		return "(" + exprShape(x.X) + ")"
+		return "(" + c04ExprShape(x.X) + ")"
 	}
 	return "_"
 }
